@@ -889,7 +889,7 @@ class Interp:
         bb = 0
         self.call_depth += 1
         if self.call_depth > 3000:
-            raise Inconclusive('call depth > 3000 (unbounded recursion?) in %s' % f.name)
+            raise RustPanic('unbounded recursion: MIR call depth > 3000 (stack exhaustion) in %s' % f.name)
         try:
             while True:
                 stmts, term = lb.get(bb)
